@@ -2105,3 +2105,156 @@ Proof.
   rewrite !evs_app, !fold_left_app. fold m1. fold m2. split; [exact RE3|]. split; [exact RF3|].
   rewrite Eq1, Eq2. fold m2. exact Eq3.
 Qed.
+
+Lemma begin_cmd_imm : forall st t c st' ev v,
+  begin_cmd st t c = (st', ev, Some v) -> ~ npcmd c -> st' = st /\ imm_ok c v /\ (wcmd c -> tpipe (th st t) < 0).
+Proof.
+  intros st t c st' ev v H Nc. destruct c; try (exfalso; apply Nc; exact Logic.I); cbn [begin_cmd] in H.
+  - destruct (negb (is_main t) || negb (phandle (pps st p))); inversion H; subst. split; [reflexivity|]. split; [reflexivity|intros []].
+  - destruct (negb (is_main t) || negb (phandle (pps st p))); inversion H; subst. split; [reflexivity|]. split; [reflexivity|intros []].
+  - destruct (Z.ltb_spec (tpipe (th st t)) 0); inversion H; subst. split; [reflexivity|]. split; [reflexivity|intros _; assumption].
+  - destruct (Z.ltb_spec (tpipe (th st t)) 0); inversion H; subst. split; [reflexivity|]. split; [reflexivity|intros _; assumption].
+  - destruct (Z.ltb_spec (tpipe (th st t)) 0); inversion H; subst. split; [reflexivity|]. split; [reflexivity|intros _; assumption].
+Qed.
+
+Lemma imm_ok_np : forall c v, npcmd c -> imm_ok c v.
+Proof. intros c v H. destruct c; try exact Logic.I; destruct H. Qed.
+
+(** ** one step of the model: both halves, and the real monitor agrees with the replies half *)
+Theorem wstep_EF : forall st m t st' ev,
+  AllInv st -> SpInv st -> BRel st (m14_b m) -> ERel ENone st m -> FRel FNone st m -> wstep st t = (st', ev) ->
+  (forall q, In (ECmd (CPNew q)) ev -> 0 <= q) ->
+  ERel ENone st' (fold_left m14r_step (evs t ev) m) /\ FRel FNone st' (fold_left m14r_step (evs t ev) m) /\
+  fold_left m14_step (evs t ev) m = fold_left m14r_step (evs t ev) m.
+Proof.
+  intros st m t st' ev A Sp B RE RF H Hq.
+  destruct A as [[I [P Wf]] W Sl L C Q X Y U S].
+  unfold wstep in H.
+  assert (Stut : forall e, c14_plain e -> f14_plain e -> (forall v, e <> ERet v) ->
+                 ERel ENone st (fold_left m14r_step (evs t [e]) m) /\ FRel FNone st (fold_left m14r_step (evs t [e]) m) /\
+                 fold_left m14_step (evs t [e]) m = fold_left m14r_step (evs t [e]) m).
+  { intros e P1 P2 P3. split; [eapply e_msame; [exact RE|apply m14r_plain_fold; intros e0 [<-|[]]; exact P1]|].
+    split; [eapply f_msame; [exact RF|apply m14r_fplain_fold; intros e0 [<-|[]]; exact P2]|]. symmetry. apply r_eq_fold. intros e0 [<-|[]]. exact P3. }
+  destruct (enabled st t) eqn:En; cbn [negb] in H; [|inversion H; subst; apply Stut; [exact Logic.I|exact Logic.I|intros v Z0; discriminate Z0]].
+  assert (Ht : (t < nthr st)%nat).
+  { unfold enabled in En. apply andb_true_iff in En. destruct En as [En _]. apply Nat.ltb_lt in En. exact En. }
+  assert (It : CInv (core (tick st t))) by (eapply CInv_ceq; [|exact I]; unfold tick; same_core).
+  assert (Pt : pristine (tick st t)) by (unfold tick; prist st t).
+  assert (Wt : wfi (tick st t)) by (eapply wfi_eq; [| | |exact Wf]; reflexivity).
+  assert (Qt : PqInv (tick st t)) by (apply (pq_same st); auto; try reflexivity; intro u; unfold tick; repeat split; thr_simpl).
+  assert (Xt : XInv (tick st t)) by (apply (x_same st); auto; unfold tick; xs).
+  assert (Yt : YInv (tick st t)).
+  { intro u. unfold tick. cbn -[Nat.eqb]. unfold updN, th. destruct (Nat.eqb_spec u t); subst; cbn; apply Y. }
+  assert (Ut : UInv (tick st t)).
+  { intros u Hu. unfold tick. cbn -[Nat.eqb]. unfold updN, th. destruct (Nat.eqb_spec u t); [cbn in Hu; lia|]. apply U. exact Hu. }
+  assert (Spt : SpInv (tick st t)).
+  { intros u c. unfold tick. cbn -[Nat.eqb]. unfold updN, th. destruct (Nat.eqb_spec u t); subst; cbn; apply Sp. }
+  assert (Slt : SlInv (tick st t)) by (unfold tick; sl_irr st).
+  assert (Sht : ShInv (tick st t)) by (unfold tick; sh_eq st).
+  assert (Bt : BRel (tick st t) (m14_b m)) by (apply (br_same st); auto; intro u; unfold tick; split; thr_simpl).
+  assert (REt : ERel ENone (tick st t) m).
+  { apply (e_steq _ st); auto. intro u. unfold tick. repeat split; thr_simpl. }
+  assert (RFt : FRel FNone (tick st t) m).
+  { apply (f_steq _ st); auto. intro u. unfold tick. repeat split; thr_simpl. }
+  assert (Htt : (t < nthr (tick st t))%nat) by exact Ht.
+  set (s0 := tick st t) in *. clearbody s0. clear En Stut.
+  destruct (tstarted (th s0 t)) eqn:Es0; cbn [negb] in H.
+  - destruct (tcont (th s0 t)) as [|i r] eqn:Ec.
+    + destruct (tscript (th s0 t)) as [|c0 cs] eqn:Es.
+      { inversion H; subst. split; [eapply e_msame; [exact RE|apply m14r_plain_fold; intros e0 [<-|[]]; exact Logic.I]|].
+        split; [eapply f_msame; [exact RF|apply m14r_fplain_fold; intros e0 [<-|[]]; exact Logic.I]|]. symmetry. apply r_eq_fold. intros e0 [<-|[]] v Z0. discriminate Z0. }
+      match type of H with context [begin_cmd ?S0 t ?cc] =>
+        destruct (begin_cmd S0 t cc) as [[st2 ev0] done] eqn:Eb; set (s1 := S0) in * end.
+      assert (Hcur0 : tcur (thr s0 t) = None).
+      { destruct (tcur (thr s0 t)) eqn:E; auto. exfalso. apply (Yt t); [rewrite E; discriminate|exact Ec]. }
+      assert (I1 : CInv (core s1)) by (eapply CInv_ceq; [|exact It]; unfold s1; same_core).
+      assert (P1 : pristine s1) by (unfold s1; prist s0 t).
+      assert (W1 : wfi s1) by (eapply wfi_eq; [| | |exact Wt]; reflexivity).
+      assert (Hc1 : tcont (thr s1 t) = []) by (unfold s1; thr_simpl; exact Ec).
+      assert (Hcur1 : tcur (thr s1 t) = Some c0) by (unfold s1; thr_simpl).
+      assert (Sl1 : SlInv s1) by (unfold s1; sl_irr s0).
+      assert (Hcur1' : tcur (thr s1 t) <> None) by (rewrite Hcur1; discriminate).
+      assert (Q1 : PqInv s1).
+      { unfold th in Ec, Es. apply (pq_idle s0 s1 t [] Qt Ec); try reflexivity.
+        - exact Hc1.
+        - unfold s1. thr_simpl.
+        - unfold s1. thr_simpl.
+        - unfold s1. cbn -[Nat.eqb]. unfold updN, th. rewrite Nat.eqb_refl. cbn. intros _ H0 _.
+          apply (pk s0 Qt t Htt H0). right. rewrite Es. discriminate.
+        - intros j [].
+        - unfold s1. cbn -[Nat.eqb]. unfold updN, th. rewrite Nat.eqb_refl. cbn. apply (pf s0 Qt t). }
+      pose proof (begin_cmd_Pq s1 t c0 st2 ev0 done I1 P1 Q1 Hc1 Htt Hcur1' Eb) as Q2.
+      destruct (begin_cmd_inv s1 t c0 st2 ev0 done I1 P1 W1 Hc1 Htt Eb) as [I2 _].
+      pose proof (begin_cmd_Sl s1 t c0 st2 ev0 done I1 P1 W1 Sl1 Hc1 Htt Eb) as Sl2.
+      pose proof (begin_B s0 (m14_b m) t c0 cs st2 ev0 done Bt Pt Htt Hcur0 Ec Eb) as B2.
+      destruct (begin_cmd_sum s1 t c0 st2 ev0 done P1 Htt Eb) as [Hpl [Ht2 [Ho2 [Hn _]]]].
+      assert (Ht2' : (t < nthr st2)%nat) by (change (nthr s1) with (nthr s0) in Hn; destruct Hn as [Hn|[Hn _]]; lia).
+      destruct (settle_B_events _ _ _ _ _ _ H) as [tail Et].
+      assert (Hok : cmd_ok c0).
+      { destruct c0; try exact Logic.I. cbn. apply Hq. rewrite Et. left. reflexivity. }
+      unfold th in Ec, Es.
+      pose proof (begin_E s0 m t c0 cs st2 ev0 done It Pt Wt Slt Qt Xt REt Htt Ec Es Hok Eb) as RE2.
+      pose proof (begin_F s0 m t c0 cs st2 ev0 done It Pt Xt Ut Qt REt RFt Htt Ec Hcur0 Es Hok Eb) as RF2.
+      assert (Eq0 : fold_left m14_step (evs t (ECmd c0 :: ev0)) m = fold_left m14r_step (evs t (ECmd c0 :: ev0)) m).
+      { symmetry. apply r_eq_fold. intros e [<-|He] v Z0; [discriminate Z0|]. destruct (Hpl e He) as [Z1 _]. subst e. exact Z1. }
+      assert (X2 : XInv st2).
+      { assert (Hs1 : tstarted (thr s1 t) = true) by (unfold s1; thr_simpl; exact Es0).
+        assert (X1 : XInv s1).
+        { constructor.
+          - intros u. unfold s1. cbn -[Nat.eqb]. unfold updN, th. destruct (Nat.eqb_spec u t); subst; cbn; [intro E; discriminate E|apply (x_idle s0 Xt u)].
+          - unfold s1. cbn -[Nat.eqb]. unfold updN, th. destruct (Nat.eqb_spec main t); subst; cbn; apply (x_main s0 Xt).
+          - intros u. unfold s1. cbn -[Nat.eqb]. unfold updN, th. destruct (Nat.eqb_spec u t); subst; cbn; [unfold th in Es0; rewrite Es0; intro E; discriminate E|apply (x_fresh s0 Xt u)]. }
+        exact (begin_cmd_X s1 t c0 st2 ev0 done X1 P1 Htt Hcur1' Hs1 Eb). }
+      destruct (settle_EF st2 _ t (ECmd c0 :: ev0) done st' ev (pendE t c0 done) (pendF t c0 done) I2 Sl2 X2 RE2 RF2) as [tail' [Et' [REf [RFf Eqf]]]]; auto.
+      * rewrite m14r_b_fold. exact B2.
+      * apply (pf st2 Q2 t).
+      * intros ->. apply (x_main _ X2).
+      * intros ->. split; [destruct c0; reflexivity|]. split; [destruct c0; reflexivity|]. intros c. rewrite Ht2, Hcur1. intro E. inversion E; subst c.
+        destruct c0; try exact Logic.I; exfalso; (apply (begin_cmd_sp _ _ _ _ _ _ Eb); [intro Z0; exact Z0|reflexivity]).
+      * intros v D. subst done. split; [rewrite (begin_cmd_done s1 t c0 st2 ev0 v Htt Eb); exact Hc1|].
+        exists c0. split; [rewrite Ht2; exact Hcur1|]. split; [reflexivity|]. split; [reflexivity|].
+        destruct (npcmd_dec c0) as [Nc|Nc]; [split; [apply imm_ok_np; exact Nc|intros Wc; exfalso; destruct c0; try destruct Wc; destruct Nc]|].
+        destruct (begin_cmd_imm _ _ _ _ _ _ Eb Nc) as [Est [Io Lw]]. split; [exact Io|]. intros Wc [_ Wp]. specialize (Lw Wc).
+        rewrite Est in Wp. unfold th in Lw. lia.
+      * rewrite Et', evs_app, !fold_left_app. split; [exact REf|]. split; [exact RFf|]. rewrite Eq0. exact Eqf.
+    + destruct (exec_instr s0 t i r) as [st1 ev1] eqn:Ee.
+      unfold th in Ec.
+      pose proof (exec_instr_E ENone s0 m t i r st1 ev1 It Slt Qt Xt REt Htt Ec Ee) as RE1.
+      pose proof (exec_instr_F FNone ENone s0 m t i r st1 ev1 It Xt Sht REt RFt Ec Ee) as RF1.
+      assert (I1 : CInv (core st1)) by (eapply exec_instr_inv; eauto).
+      pose proof (exec_instr_Sl s0 t i r st1 ev1 It Pt Slt Htt Ec Ee) as Sl1.
+      pose proof (exec_instr_B s0 (m14_b m) t i r st1 ev1 Bt Ec Htt Ee) as B1.
+      pose proof (exec_instr_tf _ _ _ _ _ _ Ee) as F.
+      assert (X1 : XInv st1) by (eapply (x_tframe s0 st1 t i r); eauto).
+      assert (Eq0 : fold_left m14_step (evs t ev1) m = fold_left m14r_step (evs t ev1) m).
+      { symmetry. apply r_eq_fold. intros e He v Z0. destruct (exec_instr_eff _ _ _ _ _ _ It Ec Ee) as [_ _ _ _ _ _ Hnoc]. destruct (Hnoc e He) as [_ Z1]. exact (Z1 v Z0). }
+      destruct F as [Hn1 [Hf _]].
+      destruct (settle_EF st1 _ t ev1 None st' ev ENone FNone I1 Sl1 X1 RE1 RF1) as [tail' [Et' [REf [RFf Eqf]]]]; auto.
+      * rewrite m14r_b_fold. exact B1.
+      * lia.
+      * destruct (Hf t) as [_ [_ [F0 _]]]. rewrite F0. apply (pf s0 Qt t).
+      * intros ->. apply (x_main _ X1).
+      * intros _. split; [reflexivity|]. split; [reflexivity|]. intros c. destruct (Hf t) as [F0 _]. rewrite F0. apply Spt.
+      * intros v D. discriminate D.
+      * rewrite Et', evs_app, !fold_left_app. split; [exact REf|]. split; [exact RFf|]. rewrite Eq0. exact Eqf.
+  - set (s1 := upd_th s0 t (set_tstarted (th s0 t) true)) in *.
+    assert (I1 : CInv (core s1)) by (eapply CInv_ceq; [|exact It]; unfold s1; same_core).
+    assert (Sl1 : SlInv s1) by (unfold s1; sl_irr s0).
+    assert (B1 : BRel s1 (m14_b m)) by (apply (br_same s0); auto; intro u; unfold s1; split; thr_simpl).
+    assert (X1 : XInv s1).
+    { destruct (x_fresh s0 Xt t Es0) as [Q1 Q2]. constructor.
+      - intros u. unfold s1. cbn -[Nat.eqb]. unfold updN, th. destruct (Nat.eqb_spec u t); subst; cbn; [unfold th in Q1; rewrite Q1; intros _ Z0; exfalso; apply Z0; reflexivity|apply (x_idle s0 Xt u)].
+      - unfold s1. cbn -[Nat.eqb]. unfold updN, th. destruct (Nat.eqb_spec main t); subst; cbn; apply (x_main s0 Xt).
+      - intros u. unfold s1. cbn -[Nat.eqb]. unfold updN, th. destruct (Nat.eqb_spec u t); subst; cbn; [intro Z0; discriminate Z0|apply (x_fresh s0 Xt u)]. }
+    assert (RE1 : ERel ENone s1 (m14r_step m (t, EStart))).
+    { apply (e_msame _ _ m); [|apply m14r_plain_step; exact Logic.I]. apply (e_steq _ s0); auto. intro u. unfold s1. repeat split; thr_simpl. }
+    assert (RF1 : FRel FNone s1 (m14r_step m (t, EStart))).
+    { apply (f_msame _ _ m); [|apply m14r_fplain_step; exact Logic.I]. apply (f_steq _ s0); auto. intro u. unfold s1. repeat split; thr_simpl. }
+    destruct (settle_EF s1 _ t [EStart] None st' ev ENone FNone I1 Sl1 X1 RE1 RF1) as [tail' [Et' [REf [RFf Eqf]]]]; auto;
+      try (intros v D; discriminate D).
+    + unfold s1. cbn -[Nat.eqb]. unfold updN, th. rewrite Nat.eqb_refl. cbn. apply (pf s0 Qt t).
+    + intros ->. unfold s1. cbn -[Nat.eqb]. unfold updN, th. rewrite Nat.eqb_refl. cbn. apply (x_main _ Xt).
+    + intros _. split; [reflexivity|]. split; [reflexivity|]. intros c. unfold s1. cbn -[Nat.eqb]. unfold updN, th. rewrite Nat.eqb_refl. cbn. apply Spt.
+    + rewrite Et'. change (evs t ([EStart] ++ tail')) with ((t, EStart) :: evs t tail'). cbn [fold_left]. split; [exact REf|]. split; [exact RFf|].
+      replace (m14_step m (t, EStart)) with (m14r_step m (t, EStart)) by (apply r_eq_step; intros _; reflexivity). exact Eqf.
+Qed.
